@@ -542,6 +542,86 @@ func runC06(c *h.Ctx) {
 		}
 	})
 
+	// ---- long containers: well-formed lists and maps of many small elements through every read-side entry point;
+	// the allocation meter catches per-element costs that grow with the element count (quadratic totals)
+	c.Run("long-containers", c.N(12, 48), func(cs *h.Case) {
+		n := []int{20000, 50000, 30000}[cs.I%3]
+		kind := (cs.I / 3) % 4
+		cs.Info("elements", n)
+		const idl = "namespace go verif\nstruct E { 1: optional i32 v }\nstruct R { 1: optional list<byte> l, 2: optional map<i32,byte> m, 3: optional list<E> e, 4: optional list<string> s }\nservice Svc { R M(1: R req) }\n"
+		const ptext = "syntax = \"proto3\";\noption go_package = \"verif/pb\";\nmessage M { repeated int32 l = 1; repeated string s = 2; map<int32, int32> m = 3; repeated M e = 4; }\nservice Svc { rpc M(M) returns (M); }\n"
+		be32 := func(b []byte, v int) []byte { return append(b, byte(v>>24), byte(v>>16), byte(v>>8), byte(v)) }
+		// thrift
+		{
+			svc, err := thrift.NewDescritorFromContent(context.Background(), "verif.thrift", idl, nil, false)
+			if err != nil {
+				cs.Viol("robust:parse-idl", "err", err)
+				return
+			}
+			desc, _ := RootOf(svc, "M")
+			var b []byte
+			switch kind {
+			case 0:
+				b = be32([]byte{15, 0, 1, 3}, n)
+				b = append(b, make([]byte, n)...)
+			case 1:
+				b = be32([]byte{13, 0, 2, 8, 3}, n)
+				for i := 0; i < n; i++ {
+					b = append(be32(b, i), 1)
+				}
+			case 2:
+				b = be32([]byte{15, 0, 3, 12}, n)
+				b = append(b, make([]byte, n)...) // n empty structs (STOP)
+			default:
+				b = be32([]byte{15, 0, 4, 11}, n)
+				for i := 0; i < n; i++ {
+					b = append(b, 0, 0, 0, 1, 'a')
+				}
+			}
+			b = append(b, 0)
+			ts := thriftTargets(cs.R, desc, tref.Struct(), &gen.Type{T: tref.STRUCT, S: &gen.StructT{Name: "R"}})
+			for _, t := range ts[:len(ts)-1] {
+				c06Call(cs, t, b)
+			}
+			cs.Cover("long_thrift")
+		}
+		// protobuf
+		{
+			svc, err := dproto.NewDescritorFromContent(context.Background(), "verif.proto", ptext, nil)
+			if err != nil {
+				cs.Viol("robust:parse-proto", "err", err)
+				return
+			}
+			desc := svc.LookupMethodByName("M").Input()
+			var b []byte
+			switch kind {
+			case 0:
+				b = rwire.AppendTag(nil, 1, rwire.BytesType)
+				b = rwire.AppendVarint(b, uint64(n))
+				b = append(b, make([]byte, n)...)
+			case 1:
+				for i := 0; i < n; i++ {
+					b = append(b, 0x12, 1, 'a')
+				}
+			case 2:
+				for i := 0; i < n; i++ {
+					e := rwire.AppendVarint([]byte{0x08}, uint64(i))
+					e = append(e, 0x10, 1)
+					b = rwire.AppendTag(b, 3, rwire.BytesType)
+					b = rwire.AppendBytes(b, e)
+				}
+			default:
+				for i := 0; i < n; i++ {
+					b = append(b, 0x22, 0)
+				}
+			}
+			for _, t := range protoTargets(cs.R, desc) {
+				c06Call(cs, t, b)
+			}
+			cs.Cover("long_proto")
+		}
+	})
+
 	// ---- Protobuf messages
 	c.Run("proto", c.N(4000, 200000), func(cs *h.Case) {
 		sc := gen.GenPSchema(cs.R, gen.PCfg{MaxDepth: 2, MaxFields: 6, Nested: cs.R.Bool(), Enums: true, BigNums: cs.R.Chance(30)})
